@@ -470,6 +470,9 @@ def selftest(ctx):
         elif e["ev"] == "symbols" and k % 2 == 1:
             ok.append({"n": "ghost", "a": limbs(0x1234)})
             bad.add(ln)
+        elif e["ev"] == "exported" and k % 2 == 0:
+            ok.append({"n": "ghost", "a": limbs(0x1234)})            # not an exported definition
+            bad.add(ln)
         elif e["ev"] == "pentry" and k % 3 == 0:
             ok[2] ^= 1
             bad.add(ln)
